@@ -16,7 +16,8 @@ CHECK = dict(
     id="C34", level="exploration",
     rule=("random type definitions (top-level Struct of 1-6 members, nesting depth <= 3: Num with "
           "20 formats of both endiannesses incl. floats, Ptr to Num/Struct/Str/Self/Void, Struct, "
-          "Union, sized Array, BitField, anonymous Struct/Union/BitField members) placed at a "
+          "Union, sized Array, BitField, anonymous Struct/Union/BitField members; 30% of the struct names "
+          "recur with other layouts inside one process) placed at a "
           "random address of a VmMngr page of random bytes; ~12 writes per type: leaf assignment "
           "by attribute / set_field / index / negative index / slice / whole-array list, whole "
           "aggregate copy, memset of a sub-view, cast_field, pointer value and deref writes, Str "
